@@ -11,7 +11,7 @@ FILE = "magicbot/magicrobot.py"
 PROPS = ["C05", "C06", "C07", "C10", "C11"]
 MR, COMP = "MagicRobot", "Component"
 
-GLOBALS = {"g_seq": "Int", "g_fms": "Bool", "g_faults": "Int", "g_reports": "Int", "g_robot_init_failed": "Bool"}
+GLOBALS = {"g_seq": "Int", "g_fms": "Bool", "g_faults": "Int", "g_reports": "Int", "g_robot_init_failed": "Bool", "g_sim": "Bool"}
 
 MACROS = {
     "COMPS(r)": "r._components",
@@ -29,11 +29,13 @@ CLASSES = {
                       "g_exec_cnt": "Int", "g_exec_last": "Int"}},
     "FbGetter": {"fields": {"g_cnt": "Int", "g_last": "Int", "g_ok": "Bool", "g_value": "Ref:PyObj"}},
     "FbSetter": {"fields": {"g_published": "Ref:PyObj", "g_cnt": "Int"}},
-    "Periodic": {"fields": {"g_cnt": "Int", "g_last": "Int"}},
+    "Periodic": {"fields": {"g_cnt": "Int", "g_last": "Int", "robot": f"Ref:{MR}", "kind": "Int"},        # kind 0 robotPeriodic, 1 simulationPeriodic
+                 "callable_of": {"methods": {f"{MR}.robotPeriodic": 0, f"{MR}._MagicRobot__simulationPeriodic": 1}, "link": "robot", "tag": "kind"}},
+    "RNTInst": {"fields": {}}, "RNTTable": {"fields": {"path": "Str"}}, "RNTEntry": {"fields": {"key": "Str"}},
     "ResetDict": {"fields": {"d": "Map[Str,Ref:PyObj]"}},
-    "NtStrSetter": {"fields": {"g_value": "Str"}},
-    "NtBoolSetter": {"fields": {"g_bvalue": "Bool"}},
-    "BoolFn": {"fields": {}},
+    "NtStrSetter": {"fields": {"g_value": "Str", "entry": "Ref:RNTEntry"}, "callable_of": {"method": "RNTEntry.setString", "link": "entry"}},
+    "NtBoolSetter": {"fields": {"g_bvalue": "Bool", "entry": "Ref:RNTEntry"}, "callable_of": {"method": "RNTEntry.setBoolean", "link": "entry"}},
+    "BoolFn": {"fields": {"entry": "Ref:RNTEntry"}, "callable_of": {"dotted": ["wpilib.DriverStation.isDSAttached"], "link": "entry"}},
     MR: {
         "fields": {
             "_components": f"Seq[(Str,Ref:{COMP})]", "_feedbacks": "Seq[(Ref:FbGetter,Ref:FbSetter)]",
@@ -42,6 +44,7 @@ CLASSES = {
             "error_report_interval": "Real", "control_loop_wait_time": "Real", "use_teleop_in_autonomous": "Bool",
             "_automodes": "Ref:AutonomousModeSelector", "_MagicRobot__nt_put_mode": "Ref:NtStrSetter",
             "_MagicRobot__nt_put_is_ds_attached": "Ref:NtBoolSetter", "_MagicRobot__is_ds_attached": "Ref:BoolFn",
+            "_MagicRobot__sd_update": "py", "_MagicRobot__lv_update": "py", "_MagicRobot__nt": "Ref:RNTTable",
             "g_mode_cnt": "Int", "g_mode_last": "Int", "g_init_cnt": "Int", "g_init_last": "Int", "g_ep_cnt": "Int", "g_dp_cnt": "Int",
         },
         "alias": {"comps": "COMPS(self)", "fbs": "FBS(self)", "pers": "PERS(self)", "rsts": "RSTS(self)"},
@@ -384,7 +387,7 @@ CONTRACTS.update({
     },
     f"{MR}.autonomous": {
         "receivers": [MR], "params": {}, "raises": True,
-        "requires": {"the offered autonomous modes are idle when the period starts (the previous period was closed)": "forall(m, Ref_AutoMode, implies(m is g_choice or exists_mode(self._automodes, m), m.g_state == 0))"},
+        "requires": {"the offered autonomous modes are idle when the period starts (the previous period was closed)": "forall(m, Ref_AutoMode, implies(m is not None and (m is g_choice or exists_mode(self._automodes, m)), m.g_state == 0))"},
         "modifies": _LOOP_MOD + ["AutonomousModeSelector.active_mode[*]", "AutonomousModeSelector.g_chosen[*]", "AutonomousModeSelector.g_iters[*]", "IterFn.g_cnt[*]", "IterFn.g_last[*]", "IterFn.robot[*]", "IterFn.kind[*]",
                                  "ExcHandler.robot[*]", "ExcHandler.kind[*]", "wpilib.Timer.g_last[*]",
                                  "AutoMode.g_state[*]", "AutoMode.g_en_cnt[*]", "AutoMode.g_it_cnt[*]", "AutoMode.g_dis_cnt[*]", "AutoMode.g_last_t[*]", "AutoMode.g_last[*]"],
@@ -392,7 +395,7 @@ CONTRACTS.update({
             "C05.A4 /robot/mode was 'auto' throughout": "self._MagicRobot__nt_put_mode.g_value == 'auto'",
             "C06.A5 on entering autonomous every on_enable ran (once) before autonomousInit; on leaving every on_disable ran (once) after it": _EN_ONCE + " and " + _DIS_ONCE_AFTER,
             "C14.A6 the selected mode is the dashboard string's mode if it names one, else the chooser selection": "self._automodes.g_chosen is (self._automodes.modes[unwrap(g_dash)] if (g_dash is not None and has(self._automodes.modes, unwrap(g_dash))) else g_choice)",
-            "C14.A7 when the period ends every offered autonomous mode is idle again (the next period may start)": "forall(m, Ref_AutoMode, implies(m is g_choice or exists_mode(self._automodes, m), m.g_state == 0))",
+            "C14.A7 when the period ends every offered autonomous mode is idle again (the next period may start)": "forall(m, Ref_AutoMode, implies(m is not None and (m is g_choice or exists_mode(self._automodes, m)), m.g_state == 0))",
             "serial monotone": "g_seq >= old(g_seq)",
         }, **G2),
         "ensures_raise": G1,
@@ -400,19 +403,65 @@ CONTRACTS.update({
 })
 
 # ---------------------------------------------------------------- the mode-switching loop
-_IDLE = "forall(m, Ref_AutoMode, implies(m is g_choice or exists_mode(self._automodes, m), m.g_state == 0))"
+_IDLE = "forall(m, Ref_AutoMode, implies(m is not None and (m is g_choice or exists_mode(self._automodes, m)), m.g_state == 0))"
 CONTRACTS.update({
     "MagicRobot.getControlState": {"kind": "external", "receivers": [MR], "params": {}, "returns": "(Bool,Bool,Bool)", "modifies": ["g_ds_enabled", "g_ds_auto", "g_ds_test"],
                                    "ensures": {"the driver station's current (enabled, autonomous, test) flags": "result[0] == g_ds_enabled and result[1] == g_ds_auto and result[2] == g_ds_test"},
                                    "note": "wpilib.RobotBase.getControlState(): refreshes and returns the control word (arbitrary input)"},
-    f"{MR}.robotInit": {"receivers": [MR], "params": {}, "raises": True, "verify": False, "modifies": ["g_robot_init_failed", f"{MR}._MagicRobot__done[*]"] + _LOOP_MOD + ["AutonomousModeSelector.active_mode[*]", "AutonomousModeSelector.g_chosen[*]", "AutonomousModeSelector.g_iters[*]", "IterFn.g_cnt[*]", "IterFn.g_last[*]", "IterFn.robot[*]", "IterFn.kind[*]",
-                                 "ExcHandler.robot[*]", "ExcHandler.kind[*]", "wpilib.Timer.g_last[*]",
-                                 "AutoMode.g_state[*]", "AutoMode.g_en_cnt[*]", "AutoMode.g_it_cnt[*]", "AutoMode.g_dis_cnt[*]", "AutoMode.g_last_t[*]", "AutoMode.g_last[*]"],
-                        "ensures": {"start-up succeeded": "not g_robot_init_failed", "the autonomous modes found at start-up are idle": _IDLE, "no fault without the FMS": "implies(not g_fms, g_faults == old(g_faults)) and g_faults >= old(g_faults)", "serial monotone": "g_seq >= old(g_seq)"},
-                        "ensures_raise": {"start-up failed": "g_robot_init_failed"},
-                        "note": "robotInit: createObjects (user), AutonomousModeSelector(...) (contracts/seldisc.py), _create_components (contracts/robotinit.py), NT bindings; here only its effect on the mode loop's state is assumed"},
+    # --- what robotInit calls
+    f"{MR}.createObjects": {"kind": "callback", "params": {}, "raises": True, "modifies": ["g_faults"] + _USER, "ensures": _NORMAL, "ensures_raise": _RAISE, "note": "user code: creates the robot's wpilib objects"},
+    f"{MR}._simulationInit": {"kind": "callback", "params": {}, "modifies": _USER, "ensures": {}, "note": "user-overridable hook (pyfrc)"},
+    f"{MR}.robotPeriodic": {"kind": "callback", "params": {}, "raises": True, "modifies": ["g_faults", "g_seq"] + _USER, "ensures": {}, "note": "user-overridable robotPeriodic(): only referenced (stored in the periodics list) by robotInit"},
+    f"{MR}._MagicRobot__simulationPeriodic": {"kind": "callback", "params": {}, "raises": True, "modifies": ["g_faults", "g_seq"] + _USER, "ensures": {}, "note": "hal.simPeriodicBefore / _simulationPeriodic / hal.simPeriodicAfter: only referenced by robotInit"},
+    f"{MR}.isSimulation": {"kind": "external", "params": {}, "returns": "Bool", "ensures": {"simulation flag (stable)": "result == g_sim"}, "note": "wpilib.RobotBase.isSimulation()"},
+    "AutonomousModeSelector.__init__": {"kind": "external", "ctor": True, "receivers": ["AutonomousModeSelector"], "params": {"autonomous_pkgname": "Str"}, "raises": True, "modifies": [],
+                                        "ensures": {"a selector whose discovered modes are idle, nothing active (verified in contracts/seldisc.py)":
+                                                    "self.active_mode is None and not self.robot_exit and self.chooser is not None and forall(m, Ref_AutoMode, implies(exists_mode(self, m), m.g_state == 0)) and "
+                                                    "forall(k, Str, implies(has(self.modes, k), self.modes[k] is not None and exists_mode(self, self.modes[k]))) and implies(g_choice is not None, exists_mode(self, g_choice))"},
+                                        "note": "AutonomousModeSelector('autonomous'): the constructor is verified in its own sidecar group (contracts/seldisc.py); here its result is assumed"},
+    f"{MR}._create_components": {"receivers": [MR], "params": {}, "raises": True, "verify": False,
+                                 "requires": {"C06.S0 the autonomous mode selector exists already (its modes are injection targets and get their setup() here)": "self._automodes is not None"},
+                                 "modifies": ["self._components", "self._feedbacks", "self._reset_components", "g_faults", "g_seq"] + _USER,
+                                 "ensures": {"the lists are well formed (verified in contracts/robotinit.py: S4 new pairwise distinct components, K1/K2 order, V1 reset entries)":
+                                             "len(comps) >= 0 and len(fbs) >= 0 and len(rsts) >= 0 and "
+                                             "forall(a, Int, forall(b, Int, implies(0 <= a and a < b and b < len(comps), not (comps[a][1] is comps[b][1])))) and forall(a, Int, implies(0 <= a and a < len(comps), comps[a][1] is not None)) and "
+                                             "forall(a, Int, forall(b, Int, implies(0 <= a and a < b and b < len(fbs), not (fbs[a][0] is fbs[b][0]) and not (fbs[a][1] is fbs[b][1])))) and forall(a, Int, implies(0 <= a and a < len(fbs), fbs[a][0] is not None and fbs[a][1] is not None)) and "
+                                             "forall(a, Int, forall(b, Int, implies(0 <= a and a < len(rsts), rsts[a][0] is not None and rsts[a][1] is not None and implies(a < b and b < len(rsts), not (rsts[a][1] is rsts[b][1]))))) and "
+                                             "g_faults == old(g_faults) and g_seq >= old(g_seq)"},
+                                 "note": "_create_components: verified in contracts/robotinit.py (separate class table); its effect on the lists is assumed here"},
+    "ntcore.NetworkTableInstance.getDefault": {"kind": "external", "params": {}, "returns": "Ref:RNTInst", "ensures": {"an instance": "result is not None"}, "note": "ntcore"},
+    "RNTInst.getTable": {"kind": "external", "params": {"path": "Str"}, "returns": "Ref:RNTTable", "ensures": {"table": "result is not None and result.path == path"}, "note": "ntcore"},
+    "RNTTable.getEntry": {"kind": "external", "params": {"key": "Str"}, "returns": "Ref:RNTEntry", "ensures": {"entry <table>/<key>": "result is not None and result.key == self.path + '/' + key"}, "note": "ntcore"},
+    "RNTTable.putBoolean": {"kind": "external", "params": {"key": "Str", "value": "Bool"}, "ensures": {}, "note": "ntcore"},
+    "RNTEntry.setString": {"kind": "external", "params": {"value": "Str"}, "ensures": {}, "note": "ntcore (only stored as a bound method by robotInit)"},
+    "RNTEntry.setBoolean": {"kind": "external", "params": {"value": "Bool"}, "ensures": {}, "note": "ntcore (only stored as a bound method by robotInit)"},
+    f"{MR}.robotInit": {
+        "receivers": [MR], "params": {}, "raises": True, "no_wf": True,
+        "requires": {"W11 the loop period is at least 1 ms": "self.control_loop_wait_time >= 0.001"},
+        "ghost_entry": {"g_robot_init_failed": "False"}, "ghost_raise": {"g_robot_init_failed": "True"},
+        "modifies": ["g_robot_init_failed", "self._automodes", "self._components", "self._feedbacks", "self._reset_components", "self._MagicRobot__is_ds_attached", "self._MagicRobot__nt",
+                     "self._MagicRobot__nt_put_is_ds_attached", "self._MagicRobot__nt_put_mode", "self.watchdog", "self._MagicRobot__periodics", "g_faults", "g_seq",
+                     "NtBoolSetter.g_bvalue[*]", "Periodic.robot[*]", "Periodic.kind[*]", "NtStrSetter.entry[*]", "NtBoolSetter.entry[*]", "BoolFn.entry[*]"] + _USER,
+        "ensures": {
+            "start-up succeeded": "not g_robot_init_failed",
+            "the autonomous modes found at start-up are idle": "self._automodes is not None and forall(m, Ref_AutoMode, implies(m is not None and (m is g_choice or exists_mode(self._automodes, m)), m.g_state == 0))",
+            "no fault without the FMS": "implies(not g_fms, g_faults == old(g_faults)) and g_faults >= old(g_faults)", "serial monotone": "g_seq >= old(g_seq)",
+            "C05.N1 the mode loops write the NetworkTables entries /robot/mode and /robot/is_ds_attached":
+                "self._MagicRobot__nt_put_mode is not None and self._MagicRobot__nt_put_mode.entry is not None and self._MagicRobot__nt_put_mode.entry.key == '/robot/mode' and "
+                "self._MagicRobot__nt_put_is_ds_attached is not None and self._MagicRobot__nt_put_is_ds_attached.entry is not None and self._MagicRobot__nt_put_is_ds_attached.entry.key == '/robot/is_ds_attached'",
+            "C05.N2 the periodics run after the feedbacks are robotPeriodic (and, in simulation only, simulationPeriodic after it), bound to this robot":
+                "len(pers) == (2 if g_sim else 1) and pers[0][0] is not None and pers[0][0].kind == 0 and pers[0][0].robot is self and implies(g_sim, pers[1][0] is not None and pers[1][0].kind == 1 and pers[1][0].robot is self and not (pers[1][0] is pers[0][0]))",
+            "W8/W10 helpers exist; the watchdog is a consistent SimpleWatchdog": "self.watchdog is not None and inv(self.watchdog) and self._MagicRobot__is_ds_attached is not None",
+            "W1-W7 lists well formed (from _create_components)": "forall(a, Int, implies(0 <= a and a < len(comps), comps[a][1] is not None)) and forall(a, Int, forall(b, Int, implies(0 <= a and a < b and b < len(comps), not (comps[a][1] is comps[b][1]))))",
+        },
+        "ensures_raise": {"start-up failed": "g_robot_init_failed"},
+    },
     f"{MR}.startCompetition": {
-        "receivers": [MR], "params": {}, "raises": True, "ghost_entry": {"g_robot_init_failed": "False"}, "modifies": ["g_robot_init_failed", f"{MR}._MagicRobot__done[*]"] + _LOOP_MOD + ["AutonomousModeSelector.active_mode[*]", "AutonomousModeSelector.g_chosen[*]", "AutonomousModeSelector.g_iters[*]", "IterFn.g_cnt[*]", "IterFn.g_last[*]", "IterFn.robot[*]", "IterFn.kind[*]",
+        "receivers": [MR], "params": {}, "raises": True, "no_wf": True, "ghost_entry": {"g_robot_init_failed": "False"},
+        "requires": {"W11 the loop period is at least 1 ms": "self.control_loop_wait_time >= 0.001"},
+        "modifies": ["g_robot_init_failed", f"{MR}._MagicRobot__done[*]", "self._automodes", "self._components", "self._feedbacks", "self._reset_components", "self._MagicRobot__is_ds_attached", "self._MagicRobot__nt",
+                     "self._MagicRobot__nt_put_is_ds_attached", "self._MagicRobot__nt_put_mode", "self.watchdog", "self._MagicRobot__periodics",
+                     "Periodic.robot[*]", "Periodic.kind[*]", "NtStrSetter.entry[*]", "NtBoolSetter.entry[*]", "BoolFn.entry[*]"] + _LOOP_MOD + ["AutonomousModeSelector.active_mode[*]", "AutonomousModeSelector.g_chosen[*]", "AutonomousModeSelector.g_iters[*]", "IterFn.g_cnt[*]", "IterFn.g_last[*]", "IterFn.robot[*]", "IterFn.kind[*]",
                                  "ExcHandler.robot[*]", "ExcHandler.kind[*]", "wpilib.Timer.g_last[*]",
                                  "AutoMode.g_state[*]", "AutoMode.g_en_cnt[*]", "AutoMode.g_it_cnt[*]", "AutoMode.g_dis_cnt[*]", "AutoMode.g_last_t[*]", "AutoMode.g_last[*]"],
         "loops": {0: {"inv": {"between two modes every offered autonomous mode is idle (the period was closed)": _IDLE, "serial monotone": "g_seq >= old(g_seq)", "without FMS no fault so far": _NOFAULT}}},
@@ -429,7 +478,7 @@ for _fn, _cond, _txt in (("_disabled", "not L_isEnabled", "the disabled loop is 
         f"C05.M1 (also C06: each mode function brackets its loop with on_enable/on_disable of every component) {_txt}": _cond + " and L_isEnabled == g_ds_enabled and L_isAutonomous == g_ds_auto and L_isTest == g_ds_test"}
 
 DYN_GETATTR = {"__dict__.update": "robot.dict_update"}
-NAMES = {"NotifierDelay": ("dotted", "NotifierDelay"), "SimpleWatchdog": ("dotted", "SimpleWatchdog")}
+NAMES = {"NotifierDelay": ("dotted", "NotifierDelay"), "SimpleWatchdog": ("dotted", "SimpleWatchdog"), "AutonomousModeSelector": ("dotted", "AutonomousModeSelector")}
 
 ASSUMPTIONS = [
     "the component/feedback/periodic/reset lists are well formed (distinct existing objects: postcondition of _create_components / robotInit, see C06/C08)",
